@@ -12,6 +12,43 @@ sys.path.insert(0, ROOT)
 warnings.simplefilter('ignore')
 logging.disable(logging.CRITICAL)
 
+
+class DebugLogging(object):
+    """the library's loggers at DEBUG level (what its example programs switch on), records going nowhere: the code
+    behind `if _logger.isEnabledFor(logging.DEBUG)` and the formatting of every log call runs"""
+
+    def __enter__(self):
+        lg = logging.getLogger('pymodbus')
+        self.saved = (lg.level, lg.propagate, list(lg.handlers), logging.root.manager.disable)
+        lg.setLevel(logging.DEBUG)
+        lg.propagate = False
+        lg.handlers[:] = [_Sink()]
+        logging.disable(logging.NOTSET)
+        return self
+
+    def __exit__(self, *a):
+        lg = logging.getLogger('pymodbus')
+        lg.setLevel(self.saved[0])
+        lg.propagate = self.saved[1]
+        lg.handlers[:] = self.saved[2]
+        logging.disable(self.saved[3])
+
+
+class _Sink(logging.Handler):
+    """formats every record (as a real handler would) and throws the text away; a record that cannot be formatted is
+    reported by the logging module on stderr, not raised -- counted here instead"""
+    failures = []
+
+    def emit(self, record):
+        try:
+            record.getMessage()
+        except Exception as e:   # noqa
+            _Sink.failures.append((record.pathname, record.lineno, repr(e)))
+
+
+if os.environ.get('VERIF_LOG_DEBUG') == '1':
+    DebugLogging().__enter__()
+
 import pymodbus  # noqa: E402
 
 _where = os.path.realpath(pymodbus.__file__)
